@@ -80,7 +80,7 @@ def run(tier, seed):
             if k not in seen:
                 seen.add(k); uniq.append(f)
         faults = uniq
-        budget = 45000 if tier == "quick" else 10 ** 9
+        budget = 45000 if tier == "quick" else 600000
         plans = []
         states = list(PREFIX)
         # every fault in the state that consumes that kind of PDU + a rotating other state; all states in thorough
@@ -96,6 +96,18 @@ def run(tier, seed):
             lenops = [p for p in plans if p[1][0]["fault"]["op"] in ("trunc", "extend")]
             rest = [p for p in plans if p[1][0]["fault"]["op"] not in ("trunc", "extend")]
             plans = lenops[:budget // 3] + rest[:budget - min(len(lenops), budget // 3)]
+        # structured variants (Gen_Variants.tla): every defined value (and neighbours) of the enumerated fields, products
+        # of the bitmap rectangle fields, update codes x flag bits - well-framed but unusual PDUs, in the active state and
+        # in one handshake state
+        vf = os.path.join(wd, "variants.ndjson")
+        rv = core.tlc("Gen_Variants", wd=wd, env={"VARIANTS": vf}, timeout=900)
+        if rv.rc != 0:
+            raise core.ToolError("Gen_Variants failed:\n" + core.tail(rv.out))
+        variants = [json.loads(l) for l in open(vf)]
+        for i, m in enumerate(variants):
+            f = {"base": m, "layer": "frame", "fault": {"op": "none"}, "kind": m["l"]}
+            plans.append(("Active", [f]))
+            plans.append((states[i % 5], [f]))
         # pairs of faults within one message
         for _ in range(3000 if tier == "quick" else 200000):
             a = rng.choice(faults)
@@ -179,7 +191,7 @@ def run(tier, seed):
                 k = e["res"]
                 outcomes[k] = outcomes.get(k, 0) + 1
         cov = {"evaluations": len(out_plans), "distinct_nontrivial": len({json.dumps(p["steps"], sort_keys=True) for p in out_plans}),
-               "rule": "single faults from Faults!Descs (TLC: %d descriptors over %d regions of 11 reference PDUs: every byte with %s values, every 16-bit window LE and BE with 31 boundary values, every 32-bit window with 12 boundary values, every truncation point, extensions 1/2/255/1500) "
+               "structured_variants": len(variants), "rule": "single faults from Faults!Descs (TLC: %d descriptors over %d regions of 11 reference PDUs: every byte with %s values, every 16-bit window LE and BE with 31 boundary values, every 32-bit window with 12 boundary values, every truncation point, extensions 1/2/255/1500) "
                        "x activation states (%s), pairs of faults, all byte strings of length <= %s at 4 parser entries; each followed by well-formed PDUs; distinct = distinct step sequences" % (
                            total_faults, len(set(json.dumps(f["base"]) + f["layer"] for f in faults)), "all 256" if tier == "thorough" else "32 boundary", "all six" if tier == "thorough" else "the consuming state, Active and one rotating state", "2" if tier == "thorough" else "1 (+3000 of length 2)"),
                "samples": [out_plans[11], out_plans[len(out_plans) // 2]],
